@@ -60,7 +60,7 @@ def strip_comments(src):
     return ''.join(out)
 
 
-def proof_step(pid, log, area='base'):
+def proof_step(pid, log, areas=('base',)):
     """returns dict(obligations, discharged, theorems=[(name, assumptions)], ok, errors)"""
     import gen_facts
     res = {'obligations': 0, 'discharged': 0, 'theorems': [], 'ok': False, 'errors': []}
@@ -77,18 +77,19 @@ def proof_step(pid, log, area='base'):
                 m = FORBIDDEN.search(src)
                 if m: res['errors'].append('forbidden construct %r in %s' % (m.group(0), fn))
         t0 = time.time()
-        rc, out = sh('timeout 3000 make -k -j16 Properties_%s.vo Extract_%s.vo 2>&1 | grep -v "^COQC\\|^COQDEP\\|conda\\|pyenv\\|shims" | tail -40' % (pid, area), cwd=COQ)
+        rc, out = sh('timeout 3000 make -k -j16 Properties_%s.vo %s 2>&1 | grep -v "^COQC\\|^COQDEP\\|conda\\|pyenv\\|shims" | tail -40' % (pid, ' '.join('Extract_%s.vo' % a for a in areas)), cwd=COQ)
         log.append('make: %.1fs' % (time.time() - t0))
         built = os.path.exists(os.path.join(COQ, 'Properties_%s.vo' % pid)) and \
             os.path.getmtime(os.path.join(COQ, 'Properties_%s.vo' % pid)) >= os.path.getmtime(os.path.join(COQ, 'Properties_%s.v' % pid))
         if 'Error' in out or not built:
             res['errors'].append('coq build failed: ' + out[-1500:])
         # (re)build the OCaml driver when the extracted model or the driver sources changed
-        drv = os.path.join(VERIF, 'ocaml', 'driver_' + area)
-        srcs = [os.path.join(COQ, 'model_%s.ml' % area)] + [os.path.join(VERIF, 'ocaml', f) for f in ('driver.ml', 'h_%s.ml' % area, 'main.ml')]
-        if os.path.exists(srcs[0]) and (not os.path.exists(drv) or any(os.path.getmtime(s) > os.path.getmtime(drv) for s in srcs)):
-            rc2, out2 = sh('sh %s %s' % (os.path.join(VERIF, 'ocaml', 'build.sh'), area))
-            if rc2 != 0: res['errors'].append('ocaml driver build failed: ' + out2[-800:])
+        for area in areas:
+            drv = os.path.join(VERIF, 'ocaml', 'driver_' + area)
+            srcs = [os.path.join(COQ, 'model_%s.ml' % area)] + [os.path.join(VERIF, 'ocaml', f) for f in ('driver.ml', 'h_%s.ml' % area, 'main.ml')]
+            if os.path.exists(srcs[0]) and (not os.path.exists(drv) or any(os.path.getmtime(s) > os.path.getmtime(drv) for s in srcs)):
+                rc2, out2 = sh('sh %s %s' % (os.path.join(VERIF, 'ocaml', 'build.sh'), area))
+                if rc2 != 0: res['errors'].append('ocaml driver build failed: ' + out2[-800:])
         # per-theorem assumptions: a generated file asks the kernel for the assumptions of every theorem of the property file
         pf = os.path.join(COQ, 'Properties_%s.v' % pid)
         names = re.findall(r'^\s*Theorem\s+(\w+)', strip_comments(open(pf).read()), re.M)
@@ -200,11 +201,14 @@ def main():
     try:
         # 1. proofs
         area = getattr(mod, 'AREA', 'base')
-        pr = proof_step(pid, log, area)
-        # 2. implementation
-        impl = build_impl(tmp, log, area=area, extra_flags=getattr(mod, 'IMPL_FLAGS', ''))
-        model = os.path.join(VERIF, 'ocaml', 'driver_' + area)
-        ctx = {'tmp': tmp, 'tier': tier, 'seed': seed, 'impl': impl, 'model': model, 'repo': REPO, 'verif': VERIF,
+        areas = list(getattr(mod, 'AREAS', [area]))
+        pr = proof_step(pid, log, areas)
+        # 2. implementation (one driver per area: each area has its own handlers)
+        flags = getattr(mod, 'IMPL_FLAGS', '')
+        impls = {a: build_impl(tmp, log, area=a, name='impl_' + a, extra_flags=(flags.get(a, '') if isinstance(flags, dict) else flags)) for a in areas}
+        models = {a: os.path.join(VERIF, 'ocaml', 'driver_' + a) for a in areas}
+        impl, model = impls[areas[0]], models[areas[0]]
+        ctx = {'tmp': tmp, 'tier': tier, 'seed': seed, 'impl': impl, 'model': model, 'impls': impls, 'models': models, 'repo': REPO, 'verif': VERIF,
                'run_driver': run_driver, 'build_impl': build_impl, 'sh': sh, 'log': log}
         # 3. cases
         if replay:
@@ -214,8 +218,15 @@ def main():
         else:
             cases = mod.corpus(ctx) + mod.generate(ctx)
         lines = [c.line for c in cases]
-        t0 = time.time(); impl_out, impl_err = run_driver(impl, lines, tmp); log.append('impl run: %.1fs' % (time.time() - t0))
-        t0 = time.time(); model_out, _ = run_driver(model, lines, tmp); log.append('model run: %.1fs' % (time.time() - t0))
+        def run_by_area(exes, what):
+            t0 = time.time(); outs = [None] * len(cases)
+            for a in areas:
+                idx = [i for i, c in enumerate(cases) if c.info.get('area', areas[0]) == a]
+                if not idx: continue
+                o, _ = run_driver(exes[a], [lines[i] for i in idx], tmp)
+                for i, r in zip(idx, o): outs[i] = r
+            log.append('%s run: %.1fs' % (what, time.time() - t0)); return [x if x is not None else 'NOOUTPUT' for x in outs]
+        impl_out = run_by_area(impls, 'impl'); model_out = run_by_area(models, 'model')
         mism = []; failing = []; nontrivial = set(); hist = {}
         for i, c in enumerate(cases):
             io, mo = impl_out[i], model_out[i]
